@@ -415,9 +415,11 @@ MANIFEST_TEXT = {
         text="Theorems: String() is the concatenation of the current components after any history; each setter changes only its "
              "component (missing '/' and '.' added); a failed SetFrameRange is a no-op; along every history of setters/Copy/Split "
              "from a parsed sequence the frame set re-creates itself, so Copy is the identical value and Split yields one part per "
-             "comma component with equal dir/base/pad/width/style/ext whose frames concatenate (first occurrences) to the original's.",
+             "comma component with equal dir/base/pad/width/style/ext whose frames concatenate (first occurrences) to the original's; "
+             "for EVERY history, including SetFrameSet(Normalize()) / SetFrameSet(Invert()), the frame set stays well formed and Copy "
+             "has the same components, range string, frames, length and the same path at every index (C12_history_sound, C12_copy_any).",
         note="Trusted: Lean kernel; model of sequence.go setters/Copy/Split tied by correspondence incl. an aliasing test of Copy; "
-             "histories containing SetFrameSet(Normalize()) are covered by correspondence only."),
+             "Split after SetFrameSet(Normalize()/Invert()) is covered by correspondence only."),
     "C15": dict(
         text="Theorem: IsFrameRange(s) is true exactly when NewFrameSet(s) succeeds, for every byte string; the model's functions "
              "are total (kernel-checked termination) and the guards of the two index expressions are stated. Crash-freedom of the "
